@@ -14,7 +14,7 @@ import (
 // library Karpenter uses.
 type Cron struct {
 	min, hour, dom, month, dow map[int]bool
-	domStar, dowStar         bool
+	domStar, dowStar           bool
 }
 
 var macros = map[string]string{
@@ -156,7 +156,7 @@ func AllowedByBudget(b BudgetSpec, now time.Time, n int) int {
 		if err != nil || p < 0 {
 			return 0
 		}
-		return int(math.Ceil(float64(p) * float64(n) / 100.0))
+		return (p*n + 99) / 100 // rounds up, in integers
 	}
 	v, err := strconv.Atoi(b.Nodes)
 	if err != nil || v < 0 {
